@@ -336,7 +336,7 @@ class CallableParallelExecution(
         for process in processes:
             process.join()
 
-        if isinstance(output, self.__exceptions_to_re_raise):
+        if stop:
             raise output
 
         return ordered_outputs
